@@ -86,6 +86,9 @@ pub enum Op {
     Snapshot,
     /// compare the current calendar with snapshot i: == iff models are equal
     CmpSnap(u32),
+    /// contains / first_after / count on snapshot i (another calendar than the one just used: anything a
+    /// calendar remembers must be its own)
+    SnapQuery(u32, D),
     /// serialize through writer plan, deserialize the fault-free bytes through reader plan
     RoundTrip { w: Plan, r: Plan, tail: u8 },
     /// several calendars written back to back into ONE stream, then read back
